@@ -6,7 +6,7 @@ import (
 	"strings"
 )
 
-// C20: the compare-and-delete of the recreate path (f8c5e31), read from the source on every run
+// C20: the compare-and-delete of the recreate path (f0aaa6b), read from the source on every run
 // and compared with the model's program points DWantLock .. DUnlock in Account/Tie.v. Emitted:
 //
 //	c20_cad_order      deleteAccountLocallyIfCurrent, in source order: 2 acquireLock (releaseLock
